@@ -24,6 +24,12 @@ CHECKS = {
                 text=SESSION_TXT + "; every returned suggestion is read out completely (length, preselected index, auxiliary text = the spec's composition, every candidate and pre-edit text). "
                      "Known finding F05 (echoed selection byte on punctuation keys) is carved out explicitly in the invariant and in known_findings.json.",
                 note="selection bytes are always bound inside the previously returned list (the statement's proviso); fixed-mode auxiliary text compared against the descriptive transcript (drift, not violation)"),
+    "C05": dict(category=MC, design_ref="DESIGN.md 5 C05",
+                technique="TLC model checking of the memo model (MemoTransparent) over all edit paths + paired replay: warm/edited/interleaved context vs brand-new context",
+                text="TLC enumerates 300 target texts x earlier words x typed prefix x all edit paths (3 steps quick / 4 thorough) and checks on the memo model that the prefixes the "
+                     "suffix path looks up are in the memo exactly as in a fresh context; ~100k (quick) histories are replayed as pairs on the real engine - a long-lived warm "
+                     "context with a second context interleaved vs a brand-new context typing the surviving text - and the complete renderings compared",
+                note="store and selection byte held fixed; fresh renderings cached per (configuration, text); bounded edit depth; TLC, harness executor trusted"),
     "C06": dict(category=MC, design_ref="DESIGN.md 5 C06",
                 technique="TLC model checking of PropFreshWhenIdle / flag invariants on Riti.tla + differential replay: at every terminating event a brand-new context is forked and compared on the whole continuation",
                 text=SESSION_TXT + "; the statement's flag rules are checked at every event and, at every terminating event, a brand-new context with the same configuration is forked; "
